@@ -468,6 +468,11 @@ func init() {
 			default:
 				amt = r.Amount(nil, false)
 			}
+			if i%12 == 5 {
+				// nothing to split: the portions must still be checked
+				amt = bi(0)
+				g.cfg.BadAllot = 500
+			}
 			prog := c06Program(g, r, amt, i%4 == 3)
 			s := scenarioFromGen(g, prog, 0, r)
 			c.addScenario(s, "icase")
